@@ -7,8 +7,8 @@ META = dict(
           "(shape, label) rank of n <= 6 leaves (quick) / n <= 7 (thorough, 39 208 trees) is unranked, re-ranked "
           "and reduced to a canonical nested-tuple form computed from the edge rows; cardinalities are compared with "
           "independently computed counts (A000669 by Euler transform, n!/|Aut| labellings per shape, A000311); "
-          "(b) random big-integer ranks for 8 <= n <= 24 (uniform) and n <= 60 (low shape ranks) with out-of-range "
-          "probes; (c) rank invariance on re-built copies of a topology (permuted internal ids, interleaved junk "
+          "(b) big-integer ranks: uniform for 8 <= n <= 15/16, low shape ranks for n <= 60, rank-then-unrank of random "
+          "root-capped topologies for n <= 28/32, each with out-of-range probes; (c) rank invariance on re-built copies of a topology (permuted internal ids, interleaved junk "
           "nodes, rescaled/perturbed times, polytomies) and on simplified msprime / forest-walk trees against a "
           "canonical-form -> rank table taken from the position in all_trees(k); (d) Tree.count_topologies and "
           "TreeSequence.count_topologies against brute-force enumeration of one sample per set on forest-walk and "
@@ -20,10 +20,12 @@ META = dict(
     ASSUMPTIONS=ASSUME_COMMON + [
         "the canonical form (min-label-sorted nested tuples from the edge rows) identifies leaf-labelled topologies",
         "OEIS A000669/A000311 values for n <= 7 are the number of series-reduced shapes / leaf-labelled trees",
-        "random shape ranks are uniform only for n <= 24 (Combination.with_replacement_unrank is linear in the "
-        "child shape rank, so uniform ranks for larger n do not terminate in practice); larger n use low shape ranks",
+        "random shape ranks are uniform only for n <= 15 (quick) / 16 (thorough): Combination.with_replacement_unrank "
+        "is linear in each child's shape rank and rank()/unrank() walk all partitions of n, so uniform ranks for "
+        "larger n do not terminate in practice (n = 25: 770 s for one unrank); larger n use low shape ranks or "
+        "topologies whose non-root subtrees have <= 12/13 leaves",
     ],
     BUDGET={"quick": 50.0, "thorough": 840.0},
-    CASE_TIMEOUT={"quick": 300, "thorough": 900},
+    CASE_TIMEOUT={"quick": 180, "thorough": 900},
     EXHAUSTIVE={"quick": False, "thorough": False},
 )
